@@ -576,6 +576,46 @@ def impl_level_via_network(tree, lvl, nm="r", flip=False, auto=True):
     return {"nodes": out}
 
 
+def impl_idx_via_network(target, idx, flip=False):
+    """an index selection as a connection uses it: the node `host` ends up attached to, or an error.
+    target: ("single",) a plain router `r`; ("array", m, n) a router array; ("tree", dims) a router tree;
+    ("eparr", n) a 1-D endpoint array `ep` that `r` is connected to by index"""
+    from floogen.model.network import Network
+    prot = [{"name": n2, "protocol": "AXI4", "data_width": 64, "addr_width": 32, "id_width": 3, "user_width": 1}
+            for n2 in ("axi_in", "axi_out")]
+    host = {"name": "host", "addr_range": {"base": 0x1000, "size": 0x100}, "mgr_port_protocol": ["axi_in"], "sbr_port_protocol": ["axi_out"]}
+    eps, conns = [host], []
+    if target[0] == "single":
+        routers = [{"name": "r"}]
+        con = {"src": "host", "dst": "r", "dst_idx": idx}
+    elif target[0] == "array":
+        routers = [{"name": "r", "array": [target[1], target[2]]}]
+        con = {"src": "host", "dst": "r", "dst_idx": idx}
+    elif target[0] == "tree":
+        routers = [{"name": "r", "tree": list(target[1])}]
+        con = {"src": "host", "dst": "r", "dst_idx": idx}
+    else:
+        routers = [{"name": "r"}]
+        eps.append({"name": "ep", "array": [target[1]], "addr_range": {"base": 0x8000, "size": 0x100},
+                    "mgr_port_protocol": ["axi_in"], "sbr_port_protocol": ["axi_out"]})
+        conns.append({"src": "host", "dst": "r"})
+        con = {"src": "ep", "src_idx": idx, "dst": "r"}
+    if flip:
+        swap = {"src": "dst", "dst": "src", "src_idx": "dst_idx", "dst_idx": "src_idx"}
+        con = {swap.get(k, k): v for k, v in con.items()}
+    cfg = {"name": "t", "description": "", "network_type": "axi", "routing": {"route_algo": "ID", "use_id_table": True},
+           "protocols": prot, "endpoints": eps, "routers": routers, "connections": conns + [con]}
+    try:
+        net = Network.model_validate(cfg)
+        net.create_network()
+    except Exception as e:  # pylint: disable=broad-except
+        return {"err": type(e).__name__}
+    who = "ep_ni_" if target[0] == "eparr" else "host_ni"
+    if target[0] == "eparr":
+        return {"nodes": sorted(u for u, v in net.graph.in_edges("r") if u.startswith(who))}
+    return {"nodes": [v for _, v in net.graph.out_edges(who) if net.graph.nodes[v].get("type") == "router"]}
+
+
 def select_good(dims, sel, arg, nm, ir):
     """C18 on one selection and what the implementation returned for it"""
     if sel == "range":
@@ -672,6 +712,24 @@ class C18Runner:
                              "detail": json.dumps(ir)[:200]}
                         rep.finding(f, {"property": pid, "finding": f, "kind": "tree-network", "dims": t, "sel": "lvl", "arg": lvl,
                                         "flip": flip, "auto": auto, "name": "r"})
+        # the index selector as a connection uses it: an index with more or fewer entries than the object has
+        # dimensions, or beyond them, addresses a node that does not exist
+        idx_cases = [(("single",), [0], None), (("single",), [0, 0], None), (("array", 2, 2), [1, 0], ["r_1_0"]),
+                     (("array", 2, 2), [1], None), (("array", 2, 2), [1, 0, 0], None), (("array", 1, 1), [0, 0], ["r_0_0"]),
+                     (("array", 1, 1), [0], None), (("tree", [1]), [0], ["r_0"]), (("tree", [1]), [0, 0], None),
+                     (("tree", [1, 2]), [0, 1], ["r_0_1"]), (("tree", [1, 2]), [0, 1, 0], None), (("tree", [1, 2]), [0, 2], None),
+                     (("eparr", 2), [1], ["ep_ni_1"]), (("eparr", 2), [1, 0], None), (("eparr", 1), [0], ["ep_ni_0"]),
+                     (("eparr", 1), [0, 0], None), (("eparr", 2), [2], None)]
+        for target, idx, want in idx_cases:
+            for flip in (False, True):
+                ir = impl_idx_via_network(target, idx, flip)
+                stats["index-via-network"] += 1
+                good = ("err" in ir) if want is None else ir.get("nodes") == want
+                if not good and not rep.violations:
+                    f = {"claim": "selector-result", "site": f"{list(target)} idx {idx} in a connection" + (" (router first)" if flip else ""),
+                         "detail": json.dumps(ir)[:200] + ("; such a node does not exist" if want is None else f"; expected {want}")}
+                    rep.finding(f, {"property": pid, "finding": f, "kind": "idx-network", "dims": list(target), "sel": "idx", "arg": idx,
+                                    "flip": flip, "want": want, "name": "r"})
         if mism and not rep.violations:
             rep.unproven({"correspondence": "Lean selectors and floogen Graph selectors disagree"}, {"property": pid, "examples": mism})
         return {"evaluations": stats["evaluated"], "distinct_nontrivial": stats["returned"],
@@ -685,6 +743,14 @@ class C18Runner:
 
     def replay(self, pid, payload, rep):
         nm = payload.get("name", "r")
+        if payload["kind"] == "idx-network":
+            t = payload["dims"]
+            ir = impl_idx_via_network(tuple(t), payload["arg"], payload.get("flip", False))
+            print(ir)
+            want = payload.get("want")
+            if not (("err" in ir) if want is None else ir.get("nodes") == want):
+                rep.finding(payload["finding"], payload)
+            return rep.exit_code()
         if payload["kind"] == "tree-network":
             t, lvl = payload["dims"], payload["arg"]
             ir = impl_level_via_network(t, lvl, "r", payload.get("flip", False), payload.get("auto", True))
